@@ -75,6 +75,8 @@ fn emit_case(otlp: &emit_otlp::Otlp, c: &Case, vid: i64) {
         "point" => Some(emit::Extent::point(client::ts(5))),
         "range" => Some(emit::Extent::range(client::ts(1)..client::ts(5))),
         "emptyRange" => Some(emit::Extent::range(client::ts(5)..client::ts(5))),
+        // the wall clock stepped back while the span was active
+        "backRange" => Some(emit::Extent::range(client::ts(5)..client::ts(1))),
         e => tool_error(&format!("unknown ext {e}")),
     };
     otlp.emit(emit::Event::new(emit::Path::new_raw("vh"), emit::Template::literal("x"), extent, &props[..]));
